@@ -36,4 +36,6 @@ SIGS = {
     'api_brute_cross_ham': (['nat', STRS, STRS], TRIPS),
     'api_brute_cross_custom': (['nat', 'nat', O('Q'), STRS, STRS], QTRIPS),
     'api_custom_dist': (['nat', 'str', 'str'], 'Q'),
+    'api_gen_pc_n': ([L('Q')], T('bool', 'Q')),
+    'api_gen_varpc_n': ([L('Q')], T('bool', 'Q')),
 }
